@@ -315,6 +315,11 @@ fn make_pool(spec: &StreamSpec) -> Vec<(Vec<u8>, u64)> {
         };
         let mut feats = Feats::default();
         let mut bytes = match spec.src {
+            Fmt::Yaml if scalar_rooted_pool(spec) => {
+                // documents whose ROOT is a scalar: plain, quoted, literal and folded block scalars, numbers
+                let forms = [format!("--- plain text number {p}\n"), format!("--- \"quoted {p}\"\n"), format!("--- |\n  literal {p}\n  second line\n"), format!("--- >-\n  folded {p}\n  more\n"), format!("--- {}\n", 40 + p), format!("---\nmulti line\nplain scalar {p}\n")];
+                forms[p % forms.len()].clone().into_bytes()
+            }
             Fmt::Yaml => {
                 let mut b = b"---\n".to_vec();
                 b.extend(spell(Fmt::Yaml, &doc, &mut rng, &mut feats, true));
@@ -331,7 +336,7 @@ fn make_pool(spec: &StreamSpec) -> Vec<(Vec<u8>, u64)> {
         }
         pool.push((bytes, single.out.len() as u64));
     }
-    if spec.src == Fmt::Yaml && spec.size_class <= 1 {
+    if spec.src == Fmt::Yaml && spec.size_class <= 1 && !scalar_rooted_pool(spec) {
         // YAML-only machinery whose per-document resources must be released with the document:
         // anchors and aliases, tags, directives, explicit document ends, comments, block scalars
         let feature_docs: [&[u8]; 5] = [
@@ -395,6 +400,11 @@ fn make_pool(spec: &StreamSpec) -> Vec<(Vec<u8>, u64)> {
     pool
 }
 
+/// A YAML stream (format named) all of whose documents have a scalar at the root.
+fn scalar_rooted_pool(spec: &StreamSpec) -> bool {
+    spec.src == Fmt::Yaml && spec.size_class == 0 && !spec.detect && spec.pool_seed % 2 == 0
+}
+
 /// Some(0..=3) = the YAML stream is UTF-16LE / UTF-16BE / UTF-32LE / UTF-32BE; None = UTF-8.
 fn stream_encoding(spec: &StreamSpec) -> Option<u64> {
     if spec.src == Fmt::Yaml && spec.pool_seed % 7 == 3 { Some((spec.pool_seed / 7) % 4) } else { None }
@@ -405,7 +415,7 @@ fn stream_encoding(spec: &StreamSpec) -> Option<u64> {
 /// JSON, a block mapping without a document start marker). Returns the bytes
 /// and the output length; chosen from the pool seed.
 fn head_doc(spec: &StreamSpec) -> Option<(Vec<u8>, u64)> {
-    if spec.src != Fmt::Yaml || matches!(spec.pool_seed % 5, 1 | 2) || stream_encoding(spec).is_some() {
+    if spec.src != Fmt::Yaml || matches!(spec.pool_seed % 5, 1 | 2) || stream_encoding(spec).is_some() || scalar_rooted_pool(spec) {
         return None;
     }
     let b: &[u8] = match spec.pool_seed % 4 {
@@ -547,6 +557,9 @@ pub fn judge(spec: &StreamSpec, acc: &mut Acc) {
     acc.max("max_peak_over_largest_doc_x100", if r.largest_doc > 4096 { (r.peak.max(0) as u64 * 100) / r.largest_doc as u64 } else { 0 });
     acc.count(&format!("streams_{}_{}", spec.src.name(), if spec.detect { "detected" } else { "explicit" }));
     acc.count(&format!("packets_{:?}", spec.packets));
+    if scalar_rooted_pool(spec) {
+        acc.count("yaml_streams_of_scalar_rooted_documents");
+    }
     if let Some(e) = stream_encoding(spec) {
         acc.count("yaml_streams_in_utf16_or_utf32");
         acc.count(&format!("yaml_stream_encoding_{}", ["utf16le", "utf16be", "utf32le", "utf32be"][e as usize]));
@@ -929,9 +942,9 @@ pub fn run(ctx: &Ctx) -> i32 {
         cli_unmappable_file(src, docs, limit, acc);
     });
     acc.merge(un_acc);
-    let rule = format!("{} streams: sources JSON/MessagePack/YAML x targets JSON/MessagePack/YAML x 6 packetisations (one document per read, three per read, half a document, single bytes, 100 KB blocks, random) x explicit/detected x document size classes (tiny, ~1 KiB generated, ~50 KiB, ~300 KiB; YAML streams also open with a flow sequence, a flow mapping or an unmarked block mapping, use CR or CRLF line breaks throughout, or - one in seven - are UTF-16LE/BE or UTF-32LE/BE throughout) x stream lengths up to {} documents, generated on the fly with O(1) harness memory; the lag invariant is evaluated at EVERY read() call; peak live heap measured with a counting allocator per call and compared with the same stream at a tenth of the length; live heap sampled at the deciles of every stream of >= 1000 documents (steady growth over the second half = a per-document leak); plus the release binary fed {} batches of {} documents through a pipe, a connected AF_UNIX socket and a named FIFO (3 sources x named/detected, rotating target): after every batch, with the input still open, all but the last three documents delivered so far (less the 8 KiB stdout buffer) must have been translated (bounded wait, re-examined with a long wait before it counts), and the resident set may not grow with the stream; plus file operands of 80-180 MB under an address-space limit of 64 / 96 MiB (the file cannot be mapped; the reader fallback has to stream it in full); distinct non-trivial = distinct stream specifications", sp.len(), if ctx.thorough() { 300000 } else { 3000 }, batches, per_batch);
+    let rule = format!("{} streams: sources JSON/MessagePack/YAML x targets JSON/MessagePack/YAML x 6 packetisations (one document per read, three per read, half a document, single bytes, 100 KB blocks, random) x explicit/detected x document size classes (tiny, ~1 KiB generated, ~50 KiB, ~300 KiB; YAML streams also open with a flow sequence, a flow mapping or an unmarked block mapping, use CR or CRLF line breaks throughout, consist of scalar-rooted documents only (plain, quoted, literal, folded, numbers), or - one in seven - are UTF-16LE/BE or UTF-32LE/BE throughout) x stream lengths up to {} documents, generated on the fly with O(1) harness memory; the lag invariant is evaluated at EVERY read() call; peak live heap measured with a counting allocator per call and compared with the same stream at a tenth of the length; live heap sampled at the deciles of every stream of >= 1000 documents (steady growth over the second half = a per-document leak); plus the release binary fed {} batches of {} documents through a pipe, a connected AF_UNIX socket and a named FIFO (3 sources x named/detected, rotating target): after every batch, with the input still open, all but the last three documents delivered so far (less the 8 KiB stdout buffer) must have been translated (bounded wait, re-examined with a long wait before it counts), and the resident set may not grow with the stream; plus file operands of 80-180 MB under an address-space limit of 64 / 96 MiB (the file cannot be mapped; the reader fallback has to stream it in full); distinct non-trivial = distinct stream specifications", sp.len(), if ctx.thorough() { 300000 } else { 3000 }, batches, per_batch);
     ev::finish(
-        Finish { ctx, level: "exploration", rule, assumptions: vec!["memory bound constants: 2 MiB + 128 x largest document; growth slack 128 KiB (measured slack on the pinned tree: < 16 KiB, worst ratio 46 for dense YAML)".into(), "the harness's own allocations during a call are bounded by one packet plus a few queue entries".into(), "command-line streams: 'arrives' is decided by a bounded wait (20 s, then 90 s in a second run) on a logical condition; the resident set is read from /proc/<pid>/statm".into()], extra: serde_json::Map::new(), exhaustive: false, min_distinct: 100, must_reach: vec![("read_calls_monitored".into(), 10000), ("length_pairs_compared".into(), 20), ("live_heap_decile_series_compared".into(), 20), ("streams_yaml_detected".into(), 5), ("streams_json_detected".into(), 5), ("streams_msgpack_detected".into(), 5), ("yaml_streams_in_utf16_or_utf32".into(), 8), ("cli_stream_batches_translated_while_the_input_was_open".into(), 100), ("cli_stream_Socket".into(), 6), ("cli_stream_memory_flat".into(), 10), ("cli_unmappable_file_streamed_in_full".into(), 2)] },
+        Finish { ctx, level: "exploration", rule, assumptions: vec!["memory bound constants: 2 MiB + 128 x largest document; growth slack 128 KiB (measured slack on the pinned tree: < 16 KiB, worst ratio 46 for dense YAML)".into(), "the harness's own allocations during a call are bounded by one packet plus a few queue entries".into(), "command-line streams: 'arrives' is decided by a bounded wait (20 s, then 90 s in a second run) on a logical condition; the resident set is read from /proc/<pid>/statm".into()], extra: serde_json::Map::new(), exhaustive: false, min_distinct: 100, must_reach: vec![("read_calls_monitored".into(), 10000), ("length_pairs_compared".into(), 20), ("live_heap_decile_series_compared".into(), 20), ("streams_yaml_detected".into(), 5), ("streams_json_detected".into(), 5), ("streams_msgpack_detected".into(), 5), ("yaml_streams_in_utf16_or_utf32".into(), 8), ("yaml_streams_of_scalar_rooted_documents".into(), 3), ("cli_stream_batches_translated_while_the_input_was_open".into(), 100), ("cli_stream_Socket".into(), 6), ("cli_stream_memory_flat".into(), 10), ("cli_unmappable_file_streamed_in_full".into(), 2)] },
         acc,
     )
 }
